@@ -54,6 +54,19 @@ def observe(entry, labels, seed, n_train=14, n_test=6, refit=False, level=0.0):
     if level:      # large level relative to the variation (numerical robustness of interval features)
         Xtr = Xtr.applymap(lambda c: c + level)
         Xte = Xte.applymap(lambda c: c + level)
+    if entry["name"].startswith("tsf") and seed % 5 == 4 and not level:
+        # sensor counts: a narrow integer dtype whose products with the time index do not fit the dtype
+        # raw 16-bit sensor counts as a 3-D array: a random level per instance, the classes differ in their
+        # slope only, so the trees have to use the slope features
+        def counts(n, sd):
+            r = np.random.RandomState(sd)
+            K = len(labels)
+            yy = np.array([labels[i % K] for i in range(n)], dtype=object if isinstance(labels[0], str) else None)
+            t = np.arange(24)
+            sl = np.array([(-1) ** (i % K) * (25 + 30 * ((i % K) // 2)) for i in range(n)]) + r.uniform(-8, 8, n)
+            X = r.uniform(2000, 6000, n)[:, None] + sl[:, None] * (t - 12) + 100 * r.randn(n, 24)     # the level says nothing
+            return np.round(X).astype(np.int16)[:, None, :], yy
+        (Xtr, ytr), (Xte, yte) = counts(30, seed), counts(n_test, seed + 77)
     if isinstance(labels[0], str):
         ytr, yte = np.array(list(ytr), dtype=object), np.array(list(yte), dtype=object)
     sorted_labels = sorted(set(labels))
@@ -78,9 +91,25 @@ def observe(entry, labels, seed, n_train=14, n_test=6, refit=False, level=0.0):
         # aggregation rules
         name = type(clf).__name__
         if name == "TimeSeriesForestClassifier":
-            X2 = from_nested_to_3d_numpy(Xte).squeeze(1)
+            X2 = np.asarray(Xte if isinstance(Xte, np.ndarray) else from_nested_to_3d_numpy(Xte), dtype=float).squeeze(1)
             o["members"] = [[dec_row(r) for r in clf.estimators_[i].predict_proba(forest_features(X2, clf.intervals_[i]))]
                             for i in range(clf.n_estimators)]
+        elif name == "SupervisedTimeSeriesForest":
+            # every tree on its own intervals of the series, its periodogram and its differences, its columns placed at
+            # the positions of its own classes
+            from scipy import signal
+            X2 = np.asarray(from_nested_to_3d_numpy(Xte).squeeze(1), dtype=float)
+            X_p = signal.periodogram(X2)[1]
+            X_d = np.diff(X2, 1)
+            mem = []
+            for est, iv in zip(clf.estimators_, clf.intervals_):
+                feat = np.concatenate((clf._transform(X2, iv[0]), clf._transform(X_p, iv[1]), clf._transform(X_d, iv[2])), axis=1)
+                pr = est.predict_proba(feat)
+                full = np.zeros((len(X2), len(clf.classes_)))
+                for j, c in enumerate(est.classes_):
+                    full[:, list(clf.classes_).index(c)] = pr[:, j]
+                mem.append([dec_row(r) for r in full])
+            o["members"] = mem
         elif name == "BOSSEnsemble":
             # every fitted member casts one vote per instance for the class it predicts
             mem = []
@@ -139,9 +168,12 @@ def run(ctx):
                 seed = ctx.seed * 1000 + ei * 100 + li * 10 + s
                 unbalanced = (s % 2 == 1)
                 refit, level = (s % 3 == 2), (1.0e8 if s % 4 == 3 else 0.0)
-                cfg, obs = observe(entry, labels, seed, n_train=14 if not unbalanced else 11, refit=refit, level=level)
+                ntr = 14 if not unbalanced else 11
+                if entry["name"].startswith("stsf") and len(labels) >= 3 and s % 2 == 0:
+                    ntr = 2 * len(labels)       # two instances per class: bootstrap samples regularly miss a class
+                cfg, obs = observe(entry, labels, seed, n_train=ntr, refit=refit, level=level)
                 ctx.evaluations += 1
-                sc = {"classifier": entry["name"], "labels": labels, "seed": seed, "n_train": 14 if not unbalanced else 11,
+                sc = {"classifier": entry["name"], "labels": labels, "seed": seed, "n_train": ntr,
                       "refit": refit, "level": level}
                 if cfg is None:
                     if entry["name"] == "muse_chi2" and "Found array with 0 feature(s)" in obs["crash"] and \
